@@ -8,6 +8,9 @@ let arg_of tok =
   | 'l' -> VT (if body = "-" then [] else List.map z_of_string (String.split_on_char ',' body))
   | _ -> failwith "arg"
 let rec assoc_nat k = function [] -> None | (j, v) :: r -> if int_of_nat j = k then Some v else assoc_nat k r
+let name_tbl : (string, int) Hashtbl.t = Hashtbl.create 512
+let () = List.iter (fun (k, cs) -> Hashtbl.replace name_tbl (String.init (List.length cs) (fun i -> Char.chr (int_of_z (List.nth cs i)))) (int_of_nat k)) fn_names
+let fid s = try Hashtbl.find name_tbl s with Not_found -> -1
 let is_untranslated k = List.exists (fun j -> int_of_nat j = k) untranslated_ids
 let dstr bits = if is_nan (decode b64 bits) then "dnan" else "d" ^ hex_of_z 16 bits
 let pad223 d = d @ List.init (max 0 (223 - List.length d)) (fun _ -> z_of_int 0x5A)
@@ -43,39 +46,71 @@ let show_parse fid args m =
   | _ -> Some "nofn"
 let rec take n l = if n <= 0 then [] else match l with [] -> [] | x :: r -> x :: take (n-1) r
 let rec drop n l = if n <= 0 then l else match l with [] -> [] | _ :: r -> drop (n-1) r
+let process line =
+  match split line with
+  | "S" :: fn :: args ->
+    let k = fid fn in
+    if is_untranslated k then "untranslated" else
+    (match assoc_nat k all_setters with
+     | Some s -> (match exec_set s (List.map arg_of args) with
+                  | Some m -> Printf.sprintf "k%s %s" fn (show_msg m)
+                  | None -> "oob")
+     | None -> "nofn")
+  | "P" :: fn :: pgn :: dl :: data :: args ->
+    let k = fid fn in
+    if is_untranslated k then "untranslated" else
+    let m = { m_pgn = z_of_string pgn; m_prio = z_of_int 6; m_dest = z_of_int 255; m_len = z_of_string dl; m_data = pad223 (unhex data) } in
+    (match show_parse k (List.map arg_of args) m with
+     | Some s -> Printf.sprintf "k%s %s" fn s
+     | None -> "oob")
+  | "R" :: sf :: pf :: n :: rest ->
+    let ks = fid sf and kp = fid pf and n = int_of_string n in
+    if is_untranslated ks || is_untranslated kp then "untranslated" else
+    let sa = List.map arg_of (take n rest) and pa = List.map arg_of (drop n rest) in
+    (match assoc_nat ks all_setters with
+     | Some s -> (match exec_set s sa with
+                  | Some m ->
+                    let m' = { m with m_data = pad223 m.m_data } in
+                    (match show_parse kp pa m' with
+                     | Some r -> Printf.sprintf "k%s,%s %s | %s" sf pf (show_msg m) r
+                     | None -> "oob")
+                  | None -> "oob")
+     | None -> "nofn")
+  | [] -> "skip"
+  | _ -> "badcase"
+
+let read_lines ic =
+  let acc = ref [] in
+  (try while true do acc := input_line ic :: !acc done with End_of_file -> ());
+  Array.of_list (List.rev !acc)
+
+(* The extracted arithmetic works on inductive binary numbers and is slow; large case files are split over worker copies of this
+   program (started through the shell, no library beyond Stdlib), and the result lines are put back in the original order. *)
+let workers = 14
 let () =
-  try while true do
-    let line = input_line stdin in
-    (match split line with
-     | "S" :: fid :: args ->
-       let k = int_of_string fid in
-       if is_untranslated k then print_string "untranslated" else
-       (match assoc_nat k all_setters with
-        | Some s -> (match exec_set s (List.map arg_of args) with
-                     | Some m -> Printf.printf "k%d %s" k (show_msg m)
-                     | None -> print_string "oob")
-        | None -> print_string "nofn")
-     | "P" :: fid :: pgn :: dl :: data :: args ->
-       let k = int_of_string fid in
-       if is_untranslated k then print_string "untranslated" else
-       let m = { m_pgn = z_of_string pgn; m_prio = z_of_int 6; m_dest = z_of_int 255; m_len = z_of_string dl; m_data = pad223 (unhex data) } in
-       (match show_parse k (List.map arg_of args) m with
-        | Some s -> Printf.printf "k%d %s" k s
-        | None -> print_string "oob")
-     | "R" :: sf :: pf :: n :: rest ->
-       let ks = int_of_string sf and kp = int_of_string pf and n = int_of_string n in
-       if is_untranslated ks || is_untranslated kp then print_string "untranslated" else
-       let sa = List.map arg_of (take n rest) and pa = List.map arg_of (drop n rest) in
-       (match assoc_nat ks all_setters with
-        | Some s -> (match exec_set s sa with
-                     | Some m ->
-                       let m' = { m with m_data = pad223 m.m_data } in
-                       (match show_parse kp pa m' with
-                        | Some r -> Printf.printf "k%d,%d %s | %s" ks kp (show_msg m) r
-                        | None -> print_string "oob")
-                     | None -> print_string "oob")
-        | None -> print_string "nofn")
-     | [] -> print_string "skip"
-     | _ -> print_string "badcase");
-    print_newline ()
-  done with End_of_file -> ()
+  if Array.length Sys.argv > 1 && Sys.argv.(1) = "--worker" then
+    (try while true do print_string (process (input_line stdin)); print_newline () done with End_of_file -> ())
+  else begin
+    let lines = read_lines stdin in
+    let n = Array.length lines in
+    if n < 600 then Array.iter (fun l -> print_string (process l); print_newline ()) lines
+    else begin
+      let base = Filename.temp_file "drvC05" "" in
+      let k = workers in
+      let ocs = Array.init k (fun i -> open_out (Printf.sprintf "%s.in%d" base i)) in
+      Array.iteri (fun i l -> output_string ocs.(i mod k) l; output_char ocs.(i mod k) '\n') lines;
+      Array.iter close_out ocs;
+      let cmd = String.concat " & " (List.init k (fun i ->
+        Printf.sprintf "%s --worker < %s > %s" (Filename.quote Sys.executable_name)
+          (Filename.quote (Printf.sprintf "%s.in%d" base i)) (Filename.quote (Printf.sprintf "%s.out%d" base i)))) ^ " ; wait" in
+      let _ = Sys.command cmd in
+      let outs = Array.init k (fun i -> let ic = open_in (Printf.sprintf "%s.out%d" base i) in let a = read_lines ic in close_in ic; a) in
+      for i = 0 to n - 1 do
+        let a = outs.(i mod k) in
+        if i / k < Array.length a then print_string a.(i / k) else print_string "worker-failed";
+        print_newline ()
+      done;
+      for i = 0 to k - 1 do (try Sys.remove (Printf.sprintf "%s.in%d" base i) with _ -> ()); (try Sys.remove (Printf.sprintf "%s.out%d" base i) with _ -> ()) done;
+      (try Sys.remove base with _ -> ())
+    end
+  end
